@@ -1,61 +1,33 @@
 import OZ.DrvUtil
-import OZ.Model.Nft
-import OZ.Model.NftEnumerable
-import OZ.Model.NftConsecutive
+import OZ.Model.NftMon
 /-
-Parsing of `nft ...` op lines, running the three NFT models, printing of model observations,
-and parsing of observation lines for the monitors (shared by the C10 and C11 drivers).
+Parsing of `nft ...` op lines, printing of model observations, and parsing of observation lines
+for the monitors (shared by the C10 and C11 drivers). The three NFT models behind one interface
+(`MState`), the structured observation (`Obs`, `stepObs`) and both monitor cores live in
+OZ/Model/NftMon.lean; this file only converts between trace text and those values.
 
 op line  : nft <kind> a=<addr,..> id=<u32> n=<u32> lu=<u32> auth=<addr,..> q=<lo-hi,..> qa=<id,..>
 obs line : ok|err ret=<id|-> own=<lo-hi:owner|x,..> oq=<id:owner|x,..> bal=<b0,..> uri=<ids>
            appr=<id:addr,..> opr=<owner:operator,..> ts=<n|-> gl=<..> ol=<..> now=<ledger> dem=<addr,..>
 -/
 namespace OZ.Drv.NftIO
-open OZ.Drv OZ.Host OZ.Nft
-
-def N : Nat := 6
-def MAX_TTL : Nat := 200000
-
-inductive MState where
-  | base (s : Nft.State)
-  | enum (s : NftEnum.State)
-  | cons (s : NftCons.BState)
+open OZ.Drv OZ.Host OZ.Nft OZ.NftMon
 
 structure M where
   cfg : Cfg
   flavour : String
   s : MState
 
+/-- `flavour=` of the sequence label (default `seq`): selects the model (`NftMon.initState`) and is
+what the C10 monitor is initialised with -/
+def labelFlavour (label : String) : String := (kv? (words label) "flavour").getD "seq"
+
 def initM (label : String) : M :=
   let ws := words label
   let mt := (kvNat? ws "min_temp").getD 1
   let st := (kvNat? ws "start").getD 100
-  let fl := (kv? ws "flavour").getD "seq"
   let mx := (kvNat? ws "max_ttl").getD MAX_TTL
-  { cfg := ⟨mt, mx⟩, flavour := fl,
-    s := if fl = "enum" then .enum (NftEnum.init st)
-         else if fl = "cons" then .cons (NftCons.init NftCons.noBuckets st)
-         else .base (Nft.init st) }
-
-def MState.core : MState → Core
-  | .base s => s.toCore
-  | .enum s => s.toCore
-  | .cons s => s.toCore
-
-def MState.ownerOf : MState → Nat → Option Nat
-  | .base s, id => (Nft.ownerOf s id).toOption
-  | .enum s, id => (Nft.ownerOf s.toState id).toOption
-  | .cons s, id => (NftCons.ownerOf NftCons.bitOps s id).toOption
-
-def MState.uri : MState → Nat → Bool
-  | .base s, id => Nft.tokenUriExists s id
-  | .enum s, id => Nft.tokenUriExists s.toState id
-  | .cons s, id => NftCons.tokenUriExists s id
-
-def MState.apply (cfg : Cfg) (auth : List Nat) (op : Op) : MState → Except Err (MState × Option Nat)
-  | .base s => (Nft.apply cfg s auth op).map (fun (s', r) => (.base s', r))
-  | .enum s => (NftEnum.apply cfg s auth op).map (fun (s', r) => (.enum s', r))
-  | .cons s => (NftCons.apply NftCons.bitOps cfg s auth op).map (fun (s', r) => (.cons s', r))
+  { cfg := ⟨mt, mx⟩, flavour := labelFlavour label, s := initState (labelFlavour label) st }
 
 /-- "3-7,9-9" → [(3,7),(9,9)] -/
 def parseRanges (s : String) : List (Nat × Nat) :=
@@ -64,114 +36,59 @@ def parseRanges (s : String) : List (Nat × Nat) :=
     | [a, b] => do pure ((← a.toNat?), (← b.toNat?))
     | _ => none)
 
-structure OpLine where
-  kind : String
-  a : List Nat
-  id : Nat
-  n : Nat
-  lu : Nat
-  auth : List Nat
-  q : List (Nat × Nat)
-  qa : List Nat
+def parseKind (s : String) : Kind :=
+  match s with
+  | "mint" => .mint
+  | "mint_id" => .mintId
+  | "batch_mint" => .batchMint
+  | "transfer" => .transfer
+  | "transfer_from" => .transferFrom
+  | "approve" => .approve
+  | "approve_for_all" => .approveForAll
+  | "burn" => .burn
+  | "burn_from" => .burnFrom
+  | "advance" => .advance
+  | _ => .other
 
-def parseOpLine (line : String) : Option OpLine :=
+/-- the op line as the model side and both monitors read it -/
+def parseLine (line : String) : Option Line :=
   match words line with
   | "nft" :: kind :: rest => do
     let id ← kvNat? rest "id"
     let n ← kvNat? rest "n"
     let lu ← kvNat? rest "lu"
-    pure { kind, a := natList ((kv? rest "a").getD "-"), id, n, lu,
+    pure { kind := parseKind kind, a := natList ((kv? rest "a").getD "-"), id, n, lu,
            auth := natList ((kv? rest "auth").getD "-"),
            q := parseRanges ((kv? rest "q").getD "-"), qa := natList ((kv? rest "qa").getD "-") }
   | _ => none
 
-def OpLine.op (o : OpLine) : Option Op :=
-  match o.kind, o.a with
-  | "mint", [t] => some (.mintSeq t)
-  | "mint_id", [t] => some (.mint t o.id)
-  | "batch_mint", [t] => some (.batchMint t o.n)
-  | "transfer", [f, t] => some (.transfer f t o.id)
-  | "transfer_from", [sp, f, t] => some (.transferFrom sp f t o.id)
-  | "approve", [ap, a] => some (.approve ap a o.id o.lu)
-  | "approve_for_all", [ow, p] => some (.approveForAll ow p o.lu)
-  | "burn", [f] => some (.burn f o.id)
-  | "burn_from", [sp, f] => some (.burnFrom sp f o.id)
-  | "advance", _ => some (.advance o.n)
-  | _, _ => none
-
-def showOpt (x : Option Nat) : String := match x with | some v => toString v | none => "x"
-
-/-- run-length encoding of `f` over `lo..=hi`, as "lo-hi:v" runs (appended to `acc` in reverse) -/
-partial def rleRange (f : Nat → Option Nat) (hi : Nat) (start : Nat) (cur : Option Nat) (id : Nat)
-    (acc : List String) : List String :=
-  if id ≥ hi then s!"{start}-{hi}:{showOpt cur}" :: acc
-  else
-    let o := f (id + 1)
-    if o != cur then rleRange f hi (id + 1) o (id + 1) (s!"{start}-{id}:{showOpt cur}" :: acc)
-    else rleRange f hi start cur (id + 1) acc
-
-def rle (f : Nat → Option Nat) (q : List (Nat × Nat)) : String :=
-  let runs := q.foldl (fun acc (lo, hi) => rleRange f hi lo (f lo) lo acc) []
-  if runs.isEmpty then "-" else ",".intercalate runs.reverse
-
 def joinS (l : List String) (sep : String) : String := if l.isEmpty then "-" else sep.intercalate l
 
-def showEnum (s : MState) (probe : List Nat) : String :=
-  match s with
-  | .enum e =>
-    let ts := e.total
-    let gl := (List.range (ts + 1)).map (fun i => showOpt (NftEnum.getTokenId e i).toOption)
-    let ol := (List.range N).map (fun a =>
-      let b := if probe.contains a then e.bal a + 1 else e.bal a
-      joinS ((List.range b).map (fun i => showOpt (NftEnum.getOwnerTokenId e a i).toOption)) ",")
-    s!"ts={ts} gl={",".intercalate gl} ol={"|".intercalate ol}"
-  | _ => "ts=- gl=- ol=-"
+def showRet (x : Option Nat) : String := match x with | some v => toString v | none => "-"
 
-def showState (s : MState) (q : List (Nat × Nat)) (qa : List Nat) (probe : List Nat) : String :=
-  let c := s.core
-  let bals := (List.range N).map (fun i => toString (c.bal i))
-  let oq := qa.map (fun id => s!"{id}:{showOpt (s.ownerOf id)}")
-  let uri := (qa.filter (fun id => s.uri id)).map toString
-  let appr := qa.filterMap (fun id => (getApproved c id).map (fun a => s!"{id}:{a}"))
-  let opr := (List.range N).flatMap (fun o => (List.range N).filterMap (fun p =>
-    if isApprovedForAll c o p then some s!"{o}:{p}" else none))
-  s!"own={rle s.ownerOf q} oq={joinS oq ","} bal={",".intercalate bals} uri={joinS uri ","} appr={joinS appr ","} opr={joinS opr ","} {showEnum s probe}"
+/-- an observation as a line of the trace -/
+def showObs (o : Obs) : String :=
+  let own := o.own.map (fun r => s!"{r.1}-{r.2.1}:{showOpt r.2.2}")
+  let oq := o.oq.map (fun p => s!"{p.1}:{showOpt p.2}")
+  let appr := o.appr.map (fun p => s!"{p.1}:{p.2}")
+  let opr := o.opr.map (fun p => s!"{p.1}:{p.2}")
+  let ol := if o.ol.isEmpty then "-" else "|".intercalate (o.ol.map (fun l => joinS (l.map showOpt) ","))
+  s!"{if o.ok then "ok" else "err"} ret={showRet o.ret} own={joinS own ","} oq={joinS oq ","} bal={",".intercalate (o.bal.map toString)} uri={joinS (o.uri.map toString) ","} appr={joinS appr ","} opr={joinS opr ","} ts={showRet o.ts} gl={joinS (o.gl.map showOpt) ","} ol={ol} now={o.now} dem={showList toString o.dem}"
 
-/-- one op line through the model: new state and the observation line -/
+/-- one op line through the model: new state and the observation line. The model's structured
+observation is `OZ.NftMon.stepObs` (the object of the monitor-soundness theorems
+OZ/Props/C10Mon.lean, OZ/Props/C11Mon.lean); this function only parses the op and prints it. -/
 def stepLine (m : M) (line : String) : M × String :=
-  match parseOpLine line with
+  match parseLine line with
   | none => (m, "bad-op")
-  | some ol =>
-    match ol.op with
+  | some l =>
+    match l.op with
     | none => (m, "bad-op")
     | some op =>
-      let probe := match op with | .advance _ => [] | _ => ol.a
-      match m.s.apply m.cfg ol.auth op with
-      | .ok (s', ret) =>
-        let dem := match op with
-          | .advance _ => "-"
-          | _ => showList toString ((op.required).mergeSort (· ≤ ·))
-        let r := match ret with | some v => toString v | none => "-"
-        ({ m with s := s' }, s!"ok ret={r} {showState s' ol.q ol.qa probe} now={s'.core.now} dem={dem}")
-      | .error _ => (m, s!"err ret=- {showState m.s ol.q ol.qa probe} now={m.s.core.now} dem=-")
+      let r := stepObs m.cfg m.s l op
+      ({ m with s := r.1 }, showObs r.2)
 
 /-! ### parsing of observations (implementation side) for the monitors -/
-
-structure Obs where
-  ok : Bool
-  ret : Option Nat
-  own : List (Nat × Nat × Option Nat)        -- runs lo, hi, owner
-  oq : List (Nat × Option Nat)
-  bal : List Nat
-  uri : List Nat
-  appr : List (Nat × Nat)
-  opr : List (Nat × Nat)
-  ts : Option Nat
-  gl : List (Option Nat)
-  ol : List (List (Option Nat))
-  now : Nat
-  dem : List Nat
-  deriving Repr, BEq
 
 def parseOptNat (s : String) : Option (Option Nat) :=
   if s = "x" then some none else s.toNat?.map some
